@@ -205,7 +205,7 @@ def run_case(c):
             a, b = st[k], st2[k]
             same = all(np.array_equal(np.asarray(getattr(a, f)), np.asarray(getattr(b, f)), equal_nan=True) for f in ("mean", "reduced_chisq", "ndof"))
             jx[sec][k] = {"mean": complex(np.asarray(a.mean)[0]), "rcs": float(np.asarray(a.reduced_chisq)[0]),
-                          "ndof": int(a.ndof), "wrapper_same": bool(same), "fields": list(a._fields),
+                          "ndof": int(a.ndof), "rcs_std": float(np.asarray(a.reduced_chisq)[1]), "wrapper_same": bool(same), "fields": list(a._fields),
                           "one_sample_same": bool(one_same)}
     # MAP state / single position: a Samples object WITHOUT samples and a bare position, each with a
     # `func`; the statistics must be those of func(position) as one sample
@@ -228,7 +228,7 @@ def run_case(c):
             a, b = st[k], ref_st[k]
             same = all(np.array_equal(np.asarray(getattr(a, f)), np.asarray(getattr(b, f)), equal_nan=True) for f in ("mean", "reduced_chisq", "ndof"))
             mp[name][k] = {"mean": complex(np.asarray(a.mean)[0]), "rcs": float(np.asarray(a.reduced_chisq)[0]),
-                           "ndof": int(a.ndof), "same_as_explicit_sample": bool(same)}
+                           "ndof": int(a.ndof), "rcs_std": float(np.asarray(a.reduced_chisq)[1]), "same_as_explicit_sample": bool(same)}
     mp_arrays = {k: [0.5 * v] for k, v in pos.items()}
     # INTEGER residual dtypes: an integer position, and a func returning integer arrays; real (not
     # complex) residuals whatever the dtype: ndof = size, same statistics as the same values as floats
@@ -317,6 +317,19 @@ def jax_term(arrs, o, cplx):
     return "jax_ok %s %s %s %s %s %s %s" % (
         C.cq(tol), C.cbool(cplx), csamples(arrs), "None" if nan else coptq(m.real), "None" if nan else coptq(m.imag),
         coptq(o["rcs"]), C.cz(o["ndof"]))
+
+
+def jax_std_term(arrs, o, cplx):
+    """reduced_chisq[1] (jnp.std over the samples) squared vs the model's population variance."""
+    sc = scale_of(arrs)
+    tol = Fraction(1, 10 ** 12) * Fraction(sc) ** 4
+    if "error" in o or "rcs_std" not in o:
+        return "false"
+    sd = o["rcs_std"]
+    if np.isinf(sd) or sd < 0:
+        return "false"
+    return "jax_var_ok %s %s %s %s" % (C.cq(tol), C.cbool(cplx), csamples(arrs),
+                                       "None" if np.isnan(sd) else "(Some %s)" % C.cq(Fraction(float(sd)) ** 2))
 
 
 # --------------------------------------------------------------------------------------------------
@@ -460,10 +473,16 @@ class C36(C.Check):
                     where.append((ci, sec, k, "classic"))
                     checks.append(jax_term(arrs, o["jax"][sec][k], c["cplx"]))
                     where.append((ci, sec, k, "jax"))
+                    # spread over the samples: reduced_chisq[1]**2 = population variance (model jax_rcs_var)
+                    checks.append(jax_std_term(arrs, o["jax"][sec][k], c["cplx"]))
+                    where.append((ci, sec, k, "jax"))
         for ci, (c, o) in enumerate(self.obs):
             for name in o["map"]:
                 for k, arrs in o["map_arrays"].items():
                     checks.append(jax_term(arrs, o["map"][name][k], c["cplx"]))
+                    where.append((ci, "map:" + name, k, "jax"))
+                    # single sample: the spread is exactly 0 / NaN (C36_jax_std_one_sample)
+                    checks.append(jax_std_term(arrs, o["map"][name][k], c["cplx"]))
                     where.append((ci, "map:" + name, k, "jax"))
         for ci, (c, o) in enumerate(self.obs):
             for name in o["int"]:
